@@ -383,3 +383,38 @@ package jobs
 //@   requires runner != nil && runner.store != nil
 //@   at call DeleteObject#1 before
 //@     assert [C14:deleted-job-definition-removed-from-the-key-it-is-stored-under] collection == server.JobConfigIndex && id == jobID
+
+// ---------------------------------------------------------------------------
+// C11: a job definition is accepted only if every one of its triggers passed the validation of its error handlers, and
+// that validation leaves every log / requeue handler with its per-entity handler installed (a nil one is dereferenced
+// in a bare goroutine when the first entity fails)
+//@ assumed (*Scheduler).ListJobs
+//@   pure
+//@ assumed cron.ParseStandard
+//@   pure
+//@ assumed strings.ToLower
+//@   pure
+
+//@ unit jobs.verifyErrorHandlers
+//@   prop C11
+//@   modifies ErrorHandler.*, LogFailingEntityHandler.*, ReQueueFailingEntityHandler.*, map[string]int
+//@   requires forall i int :: 0 <= i && i < len(trigger.ErrorHandlers) ==> trigger.ErrorHandlers[i] != nil
+//@   ensures [C11:accepted-log-and-requeue-handlers-have-their-entity-handler-installed] result == nil ==> (forall i int :: 0 <= i && i < len(trigger.ErrorHandlers) && (trigger.ErrorHandlers[i].Type == "log" || trigger.ErrorHandlers[i].Type == "requeue") ==> !isnil(trigger.ErrorHandlers[i].failingEntityHandler))
+//@   ensures [C11:accepted-handlers-are-of-a-known-type] result == nil ==> (forall i int :: 0 <= i && i < len(trigger.ErrorHandlers) ==> trigger.ErrorHandlers[i].Type == "log" || trigger.ErrorHandlers[i].Type == "requeue" || trigger.ErrorHandlers[i].Type == "rerun")
+//@   loop 1
+//@     invariant -1 <= $i && $i < len(trigger.ErrorHandlers) && counts != nil
+//@     invariant forall k int :: 0 <= k && k <= $i ==> has(counts, trigger.ErrorHandlers[k].Type)
+//@     invariant forall k int :: 0 <= k && k <= $i ==> trigger.ErrorHandlers[k].Type == "log" || trigger.ErrorHandlers[k].Type == "requeue" || trigger.ErrorHandlers[k].Type == "rerun"
+//@     invariant forall k int :: 0 <= k && k <= $i && (trigger.ErrorHandlers[k].Type == "log" || trigger.ErrorHandlers[k].Type == "requeue") ==> !isnil(trigger.ErrorHandlers[k].failingEntityHandler)
+
+//@ unit (*Scheduler).verify
+//@   prop C11
+//@   ghost checkedG int = 0
+//@   requires s != nil && jobConfiguration != nil
+//@   requires forall i int, k int :: 0 <= i && i < len(jobConfiguration.Triggers) && 0 <= k && k < len(jobConfiguration.Triggers[i].ErrorHandlers) ==> jobConfiguration.Triggers[i].ErrorHandlers[k] != nil
+//@   ensures [C11:accepted-definition-had-the-error-handlers-of-every-trigger-validated] result == nil ==> checkedG == len(jobConfiguration.Triggers) && checkedG >= 1
+//@   at call verifyErrorHandlers#1 before
+//@     assert [C11:handlers-validated-for-the-trigger-at-hand-and-this-job] trigger.ErrorHandlers == jobConfiguration.Triggers[$i2 + 1].ErrorHandlers && id == jobConfiguration.ID && title == jobConfiguration.Title
+//@     ghost checkedG := checkedG + 1
+//@   loop 2
+//@     invariant -1 <= $i && $i < len(jobConfiguration.Triggers) && checkedG == $i + 1
